@@ -171,6 +171,10 @@ func (q *PathQ) Find() (witness []string, found bool) {
 				cut = true
 				break
 			}
+			if NoReturn(in) {
+				cut = true // os.Exit / log.Fatal*: the path ends here
+				break
+			}
 			if q.Sink != nil && q.Sink(in, st) {
 				return q.render(st, in), true
 			}
@@ -580,4 +584,27 @@ func branchRelevant(phi *ssa.Phi) bool {
 	r := walk(phi, 0)
 	relevantCache[phi] = r
 	return r
+}
+
+// NoReturn reports calls that never return (process exit).
+func NoReturn(in ssa.Instruction) bool {
+	call, ok := in.(*ssa.Call)
+	if !ok {
+		return false
+	}
+	f := StaticCallee(call)
+	if f == nil || f.Pkg == nil {
+		return false
+	}
+	switch f.Pkg.Pkg.Path() {
+	case "os":
+		return f.Name() == "Exit"
+	case "log":
+		return strings.HasPrefix(f.Name(), "Fatal")
+	case "runtime":
+		return f.Name() == "Goexit"
+	case ModPath + "/internal/lg":
+		return f.Name() == "LogFatal"
+	}
+	return false
 }
